@@ -654,6 +654,7 @@ func (c *c08Run) pair(v cty.Value, t cty.Type, deep bool) {
 	ctx.Tag("convert:" + out.kind)
 	ctx.Tag("pair:" + c08Kind(v.Type()) + ">" + c08Kind(t))
 	c.unmarkCommutes(v, t, out) // d08b
+	c.conformingIdentity(v, t, out) // d08b
 	stripped := t.WithoutOptionalAttributesDeep()
 
 	// no_panic
